@@ -25,6 +25,7 @@ type GenOpts struct {
 	DLQFaults   bool // DLQ nack / stream error
 	StoreFaults bool
 	GateCommits bool
+	Holds       bool // a destination or the DLQ stops answering at some record (first run only)
 
 	// DLQ window: if Unlimited the window never stops the pipeline.
 	UnlimitedDLQ bool
@@ -100,6 +101,7 @@ func GenCase(t *rapid.T, o GenOpts) *Case {
 	c.Recovery = RecoverySpec{MinMs: 2, MaxMs: 8, Factor: 2, WindowMs: 60000,
 		MaxRetries: retries[rapid.IntRange(0, len(retries)-1).Draw(t, "retries")]}
 	c.GateCommits = o.GateCommits && chance(t, "gatecommits", 40)
+	c.GateCallbacks = o.GateCommits && chance(t, "gatecallbacks", 40)
 
 	nsrc := rapid.IntRange(1, max(1, o.MaxSources)).Draw(t, "nsrc")
 	ndst := rapid.IntRange(1, max(1, o.MaxDests)).Draw(t, "ndst")
@@ -247,6 +249,19 @@ func GenCase(t *rapid.T, o GenOpts) *Case {
 	if o.DLQFaults && chance(t, "dlqfault", 35) {
 		for _, k := range sparseKeys(t, "dlqkeys", nsrc, ns, 2) {
 			c.DLQ.PerRecord[Key(k[0], k[1], 0)] = Outcome(pickStr(t, "dlqout", []string{string(OutNack), string(OutErr)}))
+		}
+	}
+
+	if o.Holds && chance(t, "hold", 60) {
+		if chance(t, "holddlq", 25) {
+			for _, k := range sparseKeys(t, "holdkeys", nsrc, ns, 1) {
+				c.DLQ.PerRecord[Key(k[0], k[1], 0)] = OutHold
+			}
+		} else {
+			di := Uniform(t, "holddest", ndst)
+			for _, k := range sparseKeys(t, "holdkeys", nsrc, ns, 2) {
+				c.Dests[di].PerPiece[Key(k[0], k[1], 0)] = OutHold
+			}
 		}
 	}
 
